@@ -10,11 +10,13 @@ pub mod c05;
 pub mod c06;
 pub mod c07;
 pub mod c08;
+pub mod c09;
 pub mod c10;
 pub mod c12;
 pub mod c14;
 pub mod c15;
 pub mod c16;
+pub mod c17;
 
 pub fn run(id: &str, tier: Tier) -> i32 {
     let run = match id {
@@ -26,11 +28,13 @@ pub fn run(id: &str, tier: Tier) -> i32 {
         "C06" => { let r = Run::new("C06", tier); c06::run(&r); r }
         "C07" => { let r = Run::new("C07", tier); c07::run(&r); r }
         "C08" => { let r = Run::new("C08", tier); c08::run(&r); r }
+        "C09" => { let r = Run::new("C09", tier); c09::run(&r); r }
         "C10" => { let r = Run::new("C10", tier); c10::run(&r); r }
         "C12" => { let r = Run::new("C12", tier); start_watchdog("C12"); c12::run(&r); r }
         "C14" => { let r = Run::new("C14", tier); c14::run(&r); r }
         "C15" => { let r = Run::new("C15", tier); c15::run(&r); r }
         "C16" => { let r = Run::new("C16", tier); c16::run(&r); r }
+        "C17" => { let r = Run::new("C17", tier); c17::run(&r); r }
         _ => {
             eprintln!("unknown property id {id}");
             return 2;
@@ -64,6 +68,8 @@ pub fn replay_case(id: &str, op: &str, case: &serde_json::Value) -> Result<(), S
         (_, "hash_pair") => c07::replay_case(case),
         (_, "typst_collision") | (_, "typst_render") => c16::replay_case(case),
         (_, "parse_sequence") | (_, "lexical_sequence") => c08::replay_case(case),
+        (_, "mutator_history") => c17::replay_case(case),
+        (_, "spacing") => c09::replay_case(case),
         (_, "meaning") => c10::replay_case(case),
         (_, "pipelines_agree") | (_, "vocab_table") => c03::replay_case(case),
         _ => Err(format!("no replayer for property {id} op {op:?}")),
